@@ -83,4 +83,16 @@ theorem C09_col_distinct (it : Col) (k n : Nat) (h : it.WF k n) :
     (it.abs k).Nodup ∧ ∀ p ∈ it.abs k, p < n := by
   exact ⟨Col.abs_nodup it k, Col.abs_inside h⟩
 
+/-- non-vacuity: column 1 of a concrete 3x2 array is a well-formed cursor over positions 1 and 4 -/
+example : TD.col .debug (⟨[1, 2, 3, 4, 5, 6], 2, 3⟩ : TD Nat) 1 = .ok ⟨⟨1, 4⟩, 2⟩ := by rfl
+example : (⟨⟨1, 4⟩, 2⟩ : Col).WF 2 6 ∧ (⟨⟨1, 4⟩, 2⟩ : Col).abs 2 = [1, 4] :=
+  ⟨⟨by decide, by decide, by decide, by decide⟩, by decide⟩
+/-- non-vacuity of `C09_index`: on that cursor `col[1]` is position 4 and `col[2]` panics -/
+example : (⟨⟨1, 4⟩, 2⟩ : Col).index .release 1 = .ok 4 ∧ (⟨⟨1, 4⟩, 2⟩ : Col).index .release 2 = .error .panic :=
+  have h : (⟨⟨1, 4⟩, 2⟩ : Col).WF 2 6 := ⟨by decide, by decide, by decide, by decide⟩
+  ⟨((C09_index .release _ 2 6 h 1 (by decide)).1 (by decide)).1, (C09_index .release _ 2 6 h 2 (by decide)).2 (by decide)⟩
+/-- non-vacuity of `C09_col_owned`: an out-of-range column panics -/
+example : TD.col .release (⟨[1, 2, 3, 4, 5, 6], 2, 3⟩ : TD Nat) 3 = .error .panic :=
+  (C09_col_owned .release _ ⟨rfl, by decide, by decide⟩ 3 (by decide)).2 (by decide)
+
 end Toodee
